@@ -1,7 +1,806 @@
-//! C15 — not implemented yet (stub).
-use crate::engine::Args;
+//! C15 — no HTTP/2 input can crash, wedge or over-commit a worker (DESIGN §4 C15).
+//!
+//! * sub `decoder` (this file, in-process): byte strings and structured frames (valid frames of every
+//!   type from an own encoder plus near-miss mutations) through `parser::frame_header` + `frame_body`;
+//!   the oracle is an independent decode written from RFC 9113 §4.1, §4.2 and §6.
+//! * sub `conn` (`c15_conn.rs`, wire lab): a valid HTTP/2 conversation with one generated anomaly or
+//!   flood, judged by an RFC 9113 expectation model.
 
-pub fn run(_args: &Args) -> i32 {
-    println!("INCONCLUSIVE: C15 has no check yet");
-    2
+use std::{collections::BTreeSet, time::Duration};
+
+use proptest::prelude::*;
+use serde::{Deserialize, Serialize};
+use sozu_lib::protocol::mux::parser::{self, Frame as PFrame, FrameType, ParserError, ParserErrorKind, PriorityPart};
+
+use crate::engine::{self, Args, CaseReport, CheckResult, Evidence, Failure};
+
+const SUB_DECODER: &str = "decoder";
+pub const SUB_CONN: &str = "conn";
+
+const FRAME_SIZE_ERROR: u32 = 6;
+const PROTOCOL_ERROR: u32 = 1;
+const FLOW_CONTROL_ERROR: u32 = 3;
+
+const T_DATA: u8 = 0;
+const T_HEADERS: u8 = 1;
+const T_PRIORITY: u8 = 2;
+const T_RST: u8 = 3;
+const T_SETTINGS: u8 = 4;
+const T_PUSH: u8 = 5;
+const T_PING: u8 = 6;
+const T_GOAWAY: u8 = 7;
+const T_WINDOW: u8 = 8;
+const T_CONT: u8 = 9;
+const T_PRIORITY_UPDATE: u8 = 0x10;
+
+const F_END_STREAM: u8 = 0x1;
+const F_ACK: u8 = 0x1;
+const F_END_HEADERS: u8 = 0x4;
+const F_PADDED: u8 = 0x8;
+const F_PRIORITY: u8 = 0x20;
+
+// ------------------------------------------------------------------ case
+
+/// The decoder input is `head ++ fill pattern bytes ++ tail` (long payloads stay small in replay files).
+/// The five deviations this check found are repaired in sozu (known_findings.jsonl, `fixed`): nothing is
+/// steered around any more (set VP_C15_EXCLUSIONS to run against an old tree).
+pub fn steer(strict: bool) -> bool {
+    !strict && std::env::var("VP_C15_EXCLUSIONS").is_ok()
+}
+
+#[derive(Clone, Debug, Serialize, Deserialize)]
+pub struct DCase {
+    /// max_frame_size given to the decoder: false = 16384, true = 2^24-1
+    pub big: bool,
+    pub head: Vec<u8>,
+    pub fill: u32,
+    pub tail: Vec<u8>,
+    /// generated from a structured frame (as opposed to arbitrary bytes)
+    #[serde(default)]
+    pub structured: bool,
+    /// replay of a known finding: do not excuse the known shape
+    #[serde(default)]
+    pub strict: bool,
+}
+
+impl DCase {
+    pub fn bytes(&self) -> Vec<u8> {
+        let mut v = Vec::with_capacity(self.head.len() + self.fill as usize + self.tail.len());
+        v.extend_from_slice(&self.head);
+        v.extend((0..self.fill).map(|i| (i.wrapping_mul(31).wrapping_add(7)) as u8));
+        v.extend_from_slice(&self.tail);
+        v
+    }
+    fn mfs(&self) -> u32 {
+        if self.big { (1 << 24) - 1 } else { 16384 }
+    }
+}
+
+// ------------------------------------------------------------------ own encoder + generator
+
+#[derive(Clone, Debug)]
+struct Built {
+    typ: u8,
+    flags: u8,
+    sid: u32,
+    /// literal payload bytes
+    payload: Vec<u8>,
+    /// pattern bytes appended to the payload
+    extra: u32,
+}
+
+fn be32(v: u32) -> [u8; 4] {
+    v.to_be_bytes()
+}
+
+fn small_bytes(max: usize) -> impl Strategy<Value = Vec<u8>> {
+    prop::collection::vec(any::<u8>(), 0..=max)
+}
+
+fn stream_id() -> impl Strategy<Value = u32> {
+    prop_oneof![3 => Just(1u32), 2 => Just(3u32), 1 => Just(2u32), 1 => Just(0x7fff_ffffu32), 2 => 1u32..0x7fff_ffff]
+}
+
+/// how many pattern bytes follow the literal payload (frame sizes around the limits the decoder names)
+fn extra_len() -> impl Strategy<Value = u32> {
+    prop_oneof![
+        12 => Just(0u32),
+        2 => 1u32..300,
+        1 => prop_oneof![Just(16384u32 - 40), Just(16384 - 8), Just(16384), Just(16385), Just(16393)],
+        1 => 300u32..70_000,
+    ]
+}
+
+/// A valid frame of the given type, by construction (RFC 9113 §6).
+fn valid_frame(typ: u8) -> BoxedStrategy<Built> {
+    match typ {
+        T_DATA => (stream_id(), any::<bool>(), proptest::option::weighted(0.4, 0u8..40), small_bytes(24), extra_len())
+            .prop_map(|(sid, end, pad, data, extra)| {
+                let mut flags = if end { F_END_STREAM } else { 0 };
+                let mut payload = vec![];
+                // padding only with a literal payload (the padding bytes close the frame)
+                let pad = if extra == 0 { pad } else { None };
+                if let Some(p) = pad {
+                    flags |= F_PADDED;
+                    payload.push(p);
+                }
+                payload.extend_from_slice(&data);
+                if let Some(p) = pad {
+                    payload.extend(std::iter::repeat(0u8).take(p as usize));
+                }
+                Built { typ: T_DATA, flags, sid, payload, extra }
+            })
+            .boxed(),
+        T_HEADERS => (stream_id(), any::<u8>(), proptest::option::weighted(0.4, 0u8..40), proptest::option::weighted(0.4, (any::<bool>(), stream_id(), any::<u8>())), small_bytes(24), extra_len())
+            .prop_map(|(sid, fl, pad, prio, frag, extra)| {
+                let mut flags = fl & (F_END_STREAM | F_END_HEADERS);
+                let mut payload = vec![];
+                let pad = if extra == 0 { pad } else { None };
+                if let Some(p) = pad {
+                    flags |= F_PADDED;
+                    payload.push(p);
+                }
+                if let Some((excl, dep, w)) = prio {
+                    flags |= F_PRIORITY;
+                    payload.extend_from_slice(&be32(dep | if excl { 0x8000_0000 } else { 0 }));
+                    payload.push(w);
+                }
+                payload.extend_from_slice(&frag);
+                if let Some(p) = pad {
+                    payload.extend(std::iter::repeat(0u8).take(p as usize));
+                }
+                Built { typ: T_HEADERS, flags, sid, payload, extra }
+            })
+            .boxed(),
+        T_PRIORITY => (stream_id(), any::<bool>(), prop_oneof![Just(0u32), stream_id()], any::<u8>())
+            .prop_map(|(sid, excl, dep, w)| {
+                let mut payload = be32(dep | if excl { 0x8000_0000 } else { 0 }).to_vec();
+                payload.push(w);
+                Built { typ: T_PRIORITY, flags: 0, sid, payload, extra: 0 }
+            })
+            .boxed(),
+        T_RST => (stream_id(), prop_oneof![0u32..14, any::<u32>()]).prop_map(|(sid, code)| Built { typ: T_RST, flags: 0, sid, payload: be32(code).to_vec(), extra: 0 }).boxed(),
+        T_SETTINGS => prop_oneof![
+            1 => Just(Built { typ: T_SETTINGS, flags: F_ACK, sid: 0, payload: vec![], extra: 0 }),
+            4 => (prop::collection::vec((prop_oneof![4 => 1u16..7, 1 => Just(8u16), 1 => Just(9u16), 1 => any::<u16>()], prop_oneof![Just(0u32), Just(1u32), Just(100u32), Just(16384u32), Just(65535u32), Just(0x7fff_ffffu32), Just(0x8000_0000u32), any::<u32>()]), 0..9), prop_oneof![9 => Just(0usize), 1 => Just(55usize), 1 => Just(56usize), 1 => 57usize..300])
+                .prop_map(|(list, more)| {
+                    let mut payload = vec![];
+                    for (k, v) in &list {
+                        payload.extend_from_slice(&k.to_be_bytes());
+                        payload.extend_from_slice(&be32(*v));
+                    }
+                    // extra entries of an unknown identifier (the count around the decoder's allocation cap)
+                    for i in 0..more {
+                        payload.extend_from_slice(&0x00f0u16.to_be_bytes());
+                        payload.extend_from_slice(&be32(i as u32));
+                    }
+                    Built { typ: T_SETTINGS, flags: 0, sid: 0, payload, extra: 0 }
+                }),
+        ]
+        .boxed(),
+        T_PUSH => (stream_id(), any::<bool>(), stream_id(), small_bytes(16))
+            .prop_map(|(sid, eh, promised, frag)| {
+                let mut payload = be32(promised).to_vec();
+                payload.extend_from_slice(&frag);
+                Built { typ: T_PUSH, flags: if eh { F_END_HEADERS } else { 0 }, sid, payload, extra: 0 }
+            })
+            .boxed(),
+        T_PING => (any::<bool>(), any::<[u8; 8]>()).prop_map(|(ack, d)| Built { typ: T_PING, flags: if ack { F_ACK } else { 0 }, sid: 0, payload: d.to_vec(), extra: 0 }).boxed(),
+        T_GOAWAY => (prop_oneof![Just(0u32), stream_id(), any::<u32>()], prop_oneof![0u32..14, any::<u32>()], small_bytes(20), extra_len())
+            .prop_map(|(last, code, debug, extra)| {
+                let mut payload = be32(last).to_vec();
+                payload.extend_from_slice(&be32(code));
+                payload.extend_from_slice(&debug);
+                Built { typ: T_GOAWAY, flags: 0, sid: 0, payload, extra }
+            })
+            .boxed(),
+        T_WINDOW => (prop_oneof![Just(0u32), stream_id()], prop_oneof![Just(0u32), Just(1u32), Just(0x7fff_ffffu32), Just(0x8000_0000u32), Just(0xffff_ffffu32), any::<u32>()])
+            .prop_map(|(sid, inc)| Built { typ: T_WINDOW, flags: 0, sid, payload: be32(inc).to_vec(), extra: 0 })
+            .boxed(),
+        T_CONT => (stream_id(), any::<bool>(), small_bytes(24), extra_len()).prop_map(|(sid, eh, frag, extra)| Built { typ: T_CONT, flags: if eh { F_END_HEADERS } else { 0 }, sid, payload: frag, extra }).boxed(),
+        T_PRIORITY_UPDATE => (stream_id(), prop_oneof![4 => small_bytes(24), 1 => prop::collection::vec(Just(b'u'), 1020..1030)])
+            .prop_map(|(prioritized, value)| {
+                let mut payload = be32(prioritized).to_vec();
+                payload.extend_from_slice(&value);
+                Built { typ: T_PRIORITY_UPDATE, flags: 0, sid: 0, payload, extra: 0 }
+            })
+            .boxed(),
+        other => (prop_oneof![Just(0u32), stream_id()], any::<u8>(), small_bytes(24), extra_len()).prop_map(move |(sid, flags, payload, extra)| Built { typ: other, flags, sid, payload, extra }).boxed(),
+    }
+}
+
+fn frame_type() -> impl Strategy<Value = u8> {
+    prop_oneof![
+        20 => 0u8..10,
+        2 => Just(T_PRIORITY_UPDATE),
+        3 => prop_oneof![10u8..16, 17u8..=255],
+    ]
+}
+
+/// Near-miss mutations (each independently, mostly absent).
+#[derive(Clone, Debug)]
+struct Mutation {
+    /// declared length: None = true length; Some(d) = true length + d (clamped to 24 bits)
+    len_delta: Option<i32>,
+    /// declared length forced to this value
+    len_abs: Option<u32>,
+    /// stream id 0 where non-zero is required and the reverse
+    flip_sid: bool,
+    reserved_bit: bool,
+    flags: Option<u8>,
+    /// first payload byte (the Pad Length of padded frames) replaced
+    pad_byte: Option<u8>,
+    /// bytes removed from the end of the frame (payload, then header)
+    cut: Option<u16>,
+    /// unrelated bytes after the frame
+    trailing: Vec<u8>,
+}
+
+fn mutation() -> impl Strategy<Value = Mutation> {
+    (
+        proptest::option::weighted(0.18, prop_oneof![Just(-1i32), Just(1), Just(-2), Just(2), Just(-4), Just(-5), Just(-6), Just(6), Just(-8), Just(3), -40i32..40]),
+        proptest::option::weighted(0.10, prop_oneof![Just(0u32), Just(1u32), Just(4u32), Just(5u32), Just(8u32), Just(16384u32), Just(16385u32), Just(16386u32), Just((1u32 << 24) - 1), 16385u32..(1 << 24)]),
+        prop::bool::weighted(0.12),
+        prop::bool::weighted(0.12),
+        proptest::option::weighted(0.15, prop_oneof![any::<u8>(), Just(F_PADDED), Just(F_PRIORITY), Just(F_PADDED | F_PRIORITY), Just(F_ACK), Just(0xffu8)]),
+        proptest::option::weighted(0.10, prop_oneof![Just(0u8), Just(1u8), Just(255u8), any::<u8>()]),
+        proptest::option::weighted(0.08, prop_oneof![Just(1u16), 1u16..12, 1u16..64]),
+        prop_oneof![2 => Just(vec![]), 1 => small_bytes(12)],
+    )
+        .prop_map(|(len_delta, len_abs, flip_sid, reserved_bit, flags, pad_byte, cut, trailing)| Mutation { len_delta, len_abs, flip_sid, reserved_bit, flags, pad_byte, cut, trailing })
+}
+
+fn needs_stream(typ: u8) -> Option<bool> {
+    match typ {
+        T_DATA | T_HEADERS | T_PRIORITY | T_RST | T_PUSH | T_CONT => Some(true),
+        T_SETTINGS | T_PING | T_GOAWAY | T_PRIORITY_UPDATE => Some(false),
+        _ => None,
+    }
+}
+
+fn assemble(big: bool, b: Built, m: Mutation) -> DCase {
+    let mut payload = b.payload.clone();
+    let mut sid = b.sid & 0x7fff_ffff;
+    if m.flip_sid {
+        sid = match needs_stream(b.typ) {
+            Some(true) => 0,
+            Some(false) => 5,
+            None => sid,
+        };
+    }
+    let flags = m.flags.unwrap_or(b.flags);
+    if let (Some(p), Some(first)) = (m.pad_byte, payload.first_mut()) {
+        *first = p;
+    }
+    let true_len = payload.len() as u32 + b.extra;
+    let mut declared = true_len;
+    if let Some(d) = m.len_delta {
+        declared = (true_len as i64 + d as i64).clamp(0, (1 << 24) - 1) as u32;
+    }
+    if let Some(a) = m.len_abs {
+        declared = a;
+    }
+    let mut head = vec![(declared >> 16) as u8, (declared >> 8) as u8, declared as u8, b.typ, flags];
+    head.extend_from_slice(&be32(sid | if m.reserved_bit { 0x8000_0000 } else { 0 }));
+    head.append(&mut payload);
+    let mut fill = b.extra;
+    let mut tail = m.trailing.clone();
+    if let Some(c) = m.cut {
+        // a truncated frame has nothing after it
+        tail.clear();
+        let mut c = c as u32;
+        let f = c.min(fill);
+        fill -= f;
+        c -= f;
+        let keep = head.len().saturating_sub(c as usize);
+        head.truncate(keep);
+    }
+    DCase { big, head, fill, tail, structured: true, strict: false }
+}
+
+pub fn decoder_strategy() -> impl Strategy<Value = DCase> {
+    let structured = (any::<bool>(), frame_type().prop_flat_map(valid_frame), mutation(), prop::bool::weighted(0.45)).prop_map(|(big, built, m, pristine)| {
+        let m = if pristine { Mutation { len_delta: None, len_abs: None, flip_sid: false, reserved_bit: m.reserved_bit && built.typ % 2 == 0, flags: None, pad_byte: None, cut: None, trailing: m.trailing } } else { m };
+        assemble(big, built, m)
+    });
+    let raw = (any::<bool>(), prop::collection::vec(any::<u8>(), 0..64), any::<bool>(), 0u32..40).prop_map(|(big, mut head, short_len, fill)| {
+        if short_len && head.len() >= 2 {
+            // keep the declared length small so that the frame can be complete
+            head[0] = 0;
+            head[1] = 0;
+        }
+        DCase { big, head, fill, tail: vec![], structured: false, strict: false }
+    });
+    prop_oneof![5 => structured, 1 => raw]
+}
+
+// ------------------------------------------------------------------ reference decoder (RFC 9113 §4.1, §4.2, §6)
+
+#[derive(Clone, Debug, PartialEq)]
+enum Dec {
+    Data { content: Vec<u8>, end_stream: bool },
+    Headers { prio: Option<(bool, u32, u8)>, frag: Vec<u8>, end_stream: bool, end_headers: bool },
+    Priority { excl: bool, dep: u32, weight: u8 },
+    Rst(u32),
+    Settings { ack: bool, list: Vec<(u16, u32)> },
+    PushPromise,
+    Ping { ack: bool, data: [u8; 8] },
+    Goaway { last: u32, code: u32, debug: Vec<u8> },
+    WindowUpdate(u32),
+    Continuation,
+    PriorityUpdate { id: u32, value: Vec<u8> },
+    Unknown(u8),
+}
+
+#[derive(Debug, Default)]
+struct Reference {
+    len: u32,
+    typ: u8,
+    flags: u8,
+    sid: u32,
+    complete: bool,
+    /// error classes of the rules the frame breaks (the reported class must be one of them)
+    viol: BTreeSet<u32>,
+    /// classes a decoder MAY report although the framing is fine (value checks a decoder may do early)
+    may: BTreeSet<u32>,
+    /// implementation limits: any verdict is admissible
+    any: bool,
+    /// known finding shape: HEADERS with PRIORITY flag too short for the priority fields (only FRAME_SIZE_ERROR applies)
+    short_priority: bool,
+    /// the RFC leaves the class open (padded frame without room for the Pad Length field)
+    ambiguous: bool,
+    decoded: Option<Dec>,
+}
+
+fn u32_at(p: &[u8], off: usize) -> u32 {
+    u32::from_be_bytes([p[off], p[off + 1], p[off + 2], p[off + 3]])
+}
+
+fn type_name(t: u8) -> &'static str {
+    match t {
+        T_DATA => "DATA",
+        T_HEADERS => "HEADERS",
+        T_PRIORITY => "PRIORITY",
+        T_RST => "RST_STREAM",
+        T_SETTINGS => "SETTINGS",
+        T_PUSH => "PUSH_PROMISE",
+        T_PING => "PING",
+        T_GOAWAY => "GOAWAY",
+        T_WINDOW => "WINDOW_UPDATE",
+        T_CONT => "CONTINUATION",
+        T_PRIORITY_UPDATE => "PRIORITY_UPDATE",
+        _ => "UNKNOWN",
+    }
+}
+
+/// `bytes.len() >= 9`
+fn reference(bytes: &[u8], mfs: u32) -> Reference {
+    let len = ((bytes[0] as u32) << 16) | ((bytes[1] as u32) << 8) | bytes[2] as u32;
+    let typ = bytes[3];
+    let flags = bytes[4];
+    // §4.1: the reserved bit MUST be ignored when receiving
+    let sid = u32_at(bytes, 5) & 0x7fff_ffff;
+    let complete = bytes.len() >= 9 + len as usize;
+    let mut r = Reference { len, typ, flags, sid, complete, ..Default::default() };
+    // §4.2: a frame larger than SETTINGS_MAX_FRAME_SIZE -> FRAME_SIZE_ERROR
+    if len > mfs {
+        r.viol.insert(FRAME_SIZE_ERROR);
+    }
+    // stream identifier rules of §6.1 - §6.10
+    match needs_stream(typ) {
+        Some(true) if sid == 0 => {
+            r.viol.insert(PROTOCOL_ERROR);
+        }
+        Some(false) if sid != 0 && typ != T_PRIORITY_UPDATE => {
+            r.viol.insert(PROTOCOL_ERROR);
+        }
+        _ => {}
+    }
+    let avail = &bytes[9..bytes.len().min(9 + len as usize)];
+    let padded = flags & F_PADDED != 0;
+    let n = len as usize;
+    match typ {
+        T_DATA | T_HEADERS | T_PUSH => {
+            let fixed = match typ {
+                T_HEADERS if flags & F_PRIORITY != 0 => 5usize,
+                T_PUSH => 4,
+                _ => 0,
+            };
+            if padded && n == 0 {
+                // no room for the Pad Length field: §4.2 says FRAME_SIZE_ERROR (too small for mandatory data),
+                // §6.1 makes every padding defect a PROTOCOL_ERROR; receivers differ
+                r.viol.insert(FRAME_SIZE_ERROR);
+                r.viol.insert(PROTOCOL_ERROR);
+                r.ambiguous = true;
+            } else {
+                let need = padded as usize + fixed;
+                let pad = if padded { avail.first().copied() } else { Some(0) };
+                if n < need {
+                    // §4.2: too small to contain mandatory frame data
+                    r.viol.insert(FRAME_SIZE_ERROR);
+                    let mut only_size = true;
+                    if let (true, Some(p)) = (padded, pad) {
+                        if p as usize > n - 1 {
+                            // the padding alone exceeds the payload: also a padding defect
+                            r.viol.insert(PROTOCOL_ERROR);
+                            only_size = false;
+                        }
+                    }
+                    if typ == T_HEADERS && only_size && !r.viol.contains(&PROTOCOL_ERROR) && len <= mfs {
+                        r.short_priority = true;
+                    }
+                } else if let (true, Some(p)) = (padded, pad) {
+                    // §6.1 / §6.2: padding that exceeds the room left for the data -> PROTOCOL_ERROR
+                    if p as usize > n - need {
+                        r.viol.insert(PROTOCOL_ERROR);
+                    }
+                }
+            }
+            if typ == T_PUSH {
+                // §8.4: a server never accepts PUSH_PROMISE, a client that disabled push neither
+                r.may.insert(PROTOCOL_ERROR);
+            }
+            if typ == T_HEADERS && flags & F_PRIORITY != 0 && avail.len() >= padded as usize + 5 {
+                let dep = u32_at(avail, padded as usize) & 0x7fff_ffff;
+                if dep == sid {
+                    r.may.insert(PROTOCOL_ERROR);
+                }
+            }
+        }
+        T_PRIORITY => {
+            if n != 5 {
+                r.viol.insert(FRAME_SIZE_ERROR);
+            } else if avail.len() == 5 && u32_at(avail, 0) & 0x7fff_ffff == sid {
+                r.may.insert(PROTOCOL_ERROR);
+            }
+        }
+        T_RST => {
+            if n != 4 {
+                r.viol.insert(FRAME_SIZE_ERROR);
+            }
+        }
+        T_SETTINGS => {
+            if flags & F_ACK != 0 && n != 0 {
+                r.viol.insert(FRAME_SIZE_ERROR);
+            }
+            if n % 6 != 0 {
+                r.viol.insert(FRAME_SIZE_ERROR);
+            }
+            if n / 6 > 64 {
+                // no RFC limit on the number of entries; a receiver may have one (§10.5)
+                r.any = true;
+            }
+            for c in avail.chunks_exact(6) {
+                let (k, v) = (u16::from_be_bytes([c[0], c[1]]), u32_at(c, 2));
+                match k {
+                    2 if v > 1 => {
+                        r.may.insert(PROTOCOL_ERROR);
+                    }
+                    4 if v > 0x7fff_ffff => {
+                        r.may.insert(FLOW_CONTROL_ERROR);
+                    }
+                    5 if !(16384..=(1 << 24) - 1).contains(&v) => {
+                        r.may.insert(PROTOCOL_ERROR);
+                    }
+                    _ => {}
+                }
+            }
+        }
+        T_PING => {
+            if n != 8 {
+                r.viol.insert(FRAME_SIZE_ERROR);
+            }
+        }
+        T_GOAWAY => {
+            if n < 8 {
+                r.viol.insert(FRAME_SIZE_ERROR);
+            }
+        }
+        T_WINDOW => {
+            if n != 4 {
+                r.viol.insert(FRAME_SIZE_ERROR);
+            } else if avail.len() == 4 && u32_at(avail, 0) & 0x7fff_ffff == 0 {
+                r.may.insert(PROTOCOL_ERROR);
+            }
+        }
+        T_PRIORITY_UPDATE => {
+            // RFC 9218 §7.1 (an extension: a decoder may also treat the type as unknown)
+            r.may.insert(PROTOCOL_ERROR);
+            r.may.insert(FRAME_SIZE_ERROR);
+        }
+        _ => {}
+    }
+    if r.complete && r.viol.is_empty() {
+        let p = avail;
+        let unpad = |p: &[u8], fixed: usize| -> Vec<u8> {
+            if padded {
+                let pad = p[0] as usize;
+                p[1 + fixed..p.len() - pad].to_vec()
+            } else {
+                p[fixed..].to_vec()
+            }
+        };
+        r.decoded = Some(match typ {
+            T_DATA => Dec::Data { content: unpad(p, 0), end_stream: flags & F_END_STREAM != 0 },
+            T_HEADERS => {
+                let has_prio = flags & F_PRIORITY != 0;
+                let off = padded as usize;
+                let prio = if has_prio {
+                    let d = u32_at(p, off);
+                    Some((d & 0x8000_0000 != 0, d & 0x7fff_ffff, p[off + 4]))
+                } else {
+                    None
+                };
+                Dec::Headers { prio, frag: unpad(p, if has_prio { 5 } else { 0 }), end_stream: flags & F_END_STREAM != 0, end_headers: flags & F_END_HEADERS != 0 }
+            }
+            T_PRIORITY => {
+                let d = u32_at(p, 0);
+                Dec::Priority { excl: d & 0x8000_0000 != 0, dep: d & 0x7fff_ffff, weight: p[4] }
+            }
+            T_RST => Dec::Rst(u32_at(p, 0)),
+            T_SETTINGS => Dec::Settings { ack: flags & F_ACK != 0, list: p.chunks_exact(6).map(|c| (u16::from_be_bytes([c[0], c[1]]), u32_at(c, 2))).collect() },
+            T_PUSH => Dec::PushPromise,
+            T_PING => {
+                let mut d = [0u8; 8];
+                d.copy_from_slice(p);
+                Dec::Ping { ack: flags & F_ACK != 0, data: d }
+            }
+            T_GOAWAY => Dec::Goaway { last: u32_at(p, 0) & 0x7fff_ffff, code: u32_at(p, 4), debug: p[8..].to_vec() },
+            T_WINDOW => Dec::WindowUpdate(u32_at(p, 0) & 0x7fff_ffff),
+            T_CONT => Dec::Continuation,
+            T_PRIORITY_UPDATE if p.len() >= 4 => Dec::PriorityUpdate { id: u32_at(p, 0) & 0x7fff_ffff, value: p[4..].to_vec() },
+            other => Dec::Unknown(other),
+        });
+    }
+    r
+}
+
+// ------------------------------------------------------------------ what sozu's decoder said
+
+/// The decoder's error without naming the `nom` crate (not a dependency of the harness): `Err::map` hands
+/// out the inner `ParserError`; an `Incomplete` has none.
+macro_rules! error_kind {
+    ($e:expr) => {{
+        let mut k: Option<ParserErrorKind> = None;
+        let _ = $e.map(|pe: ParserError| {
+            k = Some(pe.kind.clone());
+        });
+        k
+    }};
+}
+
+fn class_of(k: &Option<ParserErrorKind>) -> Option<u32> {
+    match k {
+        Some(ParserErrorKind::H2(c)) => Some(*c as u32),
+        _ => None,
+    }
+}
+
+fn frame_type_matches(t: &FrameType, typ: u8) -> bool {
+    match t {
+        FrameType::Data => typ == T_DATA,
+        FrameType::Headers => typ == T_HEADERS,
+        FrameType::Priority => typ == T_PRIORITY,
+        FrameType::RstStream => typ == T_RST,
+        FrameType::Settings => typ == T_SETTINGS,
+        FrameType::PushPromise => typ == T_PUSH,
+        FrameType::Ping => typ == T_PING,
+        FrameType::GoAway => typ == T_GOAWAY,
+        FrameType::WindowUpdate => typ == T_WINDOW,
+        FrameType::Continuation => typ == T_CONT,
+        FrameType::PriorityUpdate => typ == T_PRIORITY_UPDATE,
+        FrameType::Unknown(x) => *x == typ && typ > 9,
+    }
+}
+
+/// translate sozu's typed frame into the reference vocabulary (`body` is the slice given to `frame_body`)
+fn observed(f: &PFrame, h_flags: u8, body: &[u8]) -> Result<Dec, String> {
+    let slice = |s: &kawa::repr::Slice| -> Result<Vec<u8>, String> { s.data_opt(body).map(|d| d.to_vec()).ok_or_else(|| format!("slice {s:?} outside the {}-byte input", body.len())) };
+    Ok(match f {
+        PFrame::Data(d) => Dec::Data { content: slice(&d.payload)?, end_stream: d.end_stream },
+        PFrame::Headers(h) => Dec::Headers {
+            prio: match &h.priority {
+                None => None,
+                Some(PriorityPart::Rfc7540 { stream_dependency, weight }) => Some((stream_dependency.exclusive, stream_dependency.stream_id, *weight)),
+                Some(other) => return Err(format!("HEADERS priority decoded as {other:?}")),
+            },
+            frag: slice(&h.header_block_fragment)?,
+            end_stream: h.end_stream,
+            end_headers: h.end_headers,
+        },
+        PFrame::Priority(p) => match &p.inner {
+            PriorityPart::Rfc7540 { stream_dependency, weight } => Dec::Priority { excl: stream_dependency.exclusive, dep: stream_dependency.stream_id, weight: *weight },
+            other => return Err(format!("PRIORITY decoded as {other:?}")),
+        },
+        PFrame::RstStream(r) => Dec::Rst(r.error_code),
+        PFrame::Settings(s) => Dec::Settings { ack: s.ack, list: s.settings.iter().map(|x| (x.identifier, x.value)).collect() },
+        PFrame::PushPromise(_) => Dec::PushPromise,
+        PFrame::Ping(p) => Dec::Ping { ack: p.ack, data: p.payload },
+        PFrame::GoAway(g) => Dec::Goaway { last: g.last_stream_id, code: g.error_code, debug: slice(&g.additional_debug_data)? },
+        PFrame::WindowUpdate(w) => Dec::WindowUpdate(w.increment),
+        PFrame::Continuation(_) => {
+            let _ = h_flags;
+            Dec::Continuation
+        }
+        PFrame::PriorityUpdate(p) => Dec::PriorityUpdate { id: p.prioritized_stream_id, value: p.priority_field_value.clone() },
+        PFrame::Unknown(t) => Dec::Unknown(*t),
+    })
+}
+
+fn frame_stream_id(f: &PFrame) -> Option<u32> {
+    match f {
+        PFrame::Data(d) => Some(d.stream_id),
+        PFrame::Headers(h) => Some(h.stream_id),
+        PFrame::Priority(p) => Some(p.stream_id),
+        PFrame::RstStream(r) => Some(r.stream_id),
+        PFrame::WindowUpdate(w) => Some(w.stream_id),
+        _ => None,
+    }
+}
+
+fn class_name(c: Option<u32>) -> String {
+    match c {
+        None => "unclassified(nom)".into(),
+        Some(1) => "PROTOCOL_ERROR".into(),
+        Some(3) => "FLOW_CONTROL_ERROR".into(),
+        Some(6) => "FRAME_SIZE_ERROR".into(),
+        Some(x) => format!("error {x:#x}"),
+    }
+}
+
+pub fn decoder_check(case: &DCase) -> CheckResult {
+    let bytes = case.bytes();
+    let mfs = case.mfs();
+    let mut rep = CaseReport::default();
+    rep.class(if case.big { "max_frame_size_2^24-1" } else { "max_frame_size_16384" });
+    rep.class(if case.structured { "structured_frame" } else { "raw_bytes" });
+    if bytes.len() < 9 {
+        // fewer bytes than a frame header: an error, never a header
+        if let Ok((_, h)) = parser::frame_header(&bytes, mfs) {
+            fail!("C15/decoder:header-from-short-input", "frame_header returned {h:?} for {} input bytes {:02x?}", bytes.len(), bytes);
+        }
+        rep.class("input_shorter_than_a_header");
+        return Ok(rep);
+    }
+    let r = reference(&bytes, mfs);
+    let tn = type_name(r.typ);
+    let shown = format!("{:02x?}{}", &bytes[..bytes.len().min(40)], if bytes.len() > 40 { format!(" (+{} bytes)", bytes.len() - 40) } else { String::new() });
+    // judge an error verdict of either stage
+    let judge_err = |stage: &str, k: Option<ParserErrorKind>, rep: &mut CaseReport| -> Result<(), Failure> {
+        let class = class_of(&k);
+        // the only production caller (h2.rs `error_nom_to_h2`) reports a nom-kind error as PROTOCOL_ERROR
+        let eff = class.unwrap_or(PROTOCOL_ERROR);
+        if !r.complete && class.is_none() {
+            rep.class("err:incomplete_input");
+            return Ok(());
+        }
+        if r.any || r.viol.contains(&eff) || r.may.contains(&eff) {
+            rep.class(format!("err:{}", class_name(Some(eff))));
+            rep.class_if(class.is_none(), "nom_error_read_as_PROTOCOL_ERROR");
+            rep.class_if(r.ambiguous, "rfc_leaves_class_open:padded_frame_without_pad_length");
+            return Ok(());
+        }
+        if r.short_priority && eff == PROTOCOL_ERROR {
+            if !steer(case.strict) {
+                return Err(Failure::new(
+                    "C15/decoder:error-class:HEADERS-priority-too-short",
+                    format!("{stage}: HEADERS with the PRIORITY flag and a {}-byte payload (too small for the 5 priority octets{}) is reported as {} ; RFC 9113 4.2 prescribes FRAME_SIZE_ERROR for a frame too small to contain mandatory frame data. input {shown}", r.len, if r.flags & F_PADDED != 0 { " after the Pad Length octet" } else { "" }, class_name(class)),
+                ));
+            }
+            rep.excluded_known += 1;
+            rep.class("known:headers_priority_too_short");
+            return Ok(());
+        }
+        if r.viol.is_empty() {
+            return Err(Failure::new(format!("C15/decoder:spurious-error:{tn}"), format!("{stage} rejects a well-formed {tn} frame (length {}, flags {:#x}, stream {}) with {}; input {shown}, max_frame_size {mfs}", r.len, r.flags, r.sid, class_name(class))));
+        }
+        Err(Failure::new(
+            format!("C15/decoder:error-class:{tn}"),
+            format!("{stage} reports {} for a {tn} frame (length {}, flags {:#x}, stream {}); RFC 9113 prescribes {:?}; input {shown}, max_frame_size {mfs}", class_name(class), r.len, r.flags, r.sid, r.viol.iter().map(|c| class_name(Some(*c))).collect::<Vec<_>>()),
+        ))
+    };
+    let (rest, header) = match parser::frame_header(&bytes, mfs) {
+        Ok(x) => x,
+        Err(e) => {
+            judge_err("frame_header", error_kind!(e), &mut rep)?;
+            rep.class(format!("type:{tn}"));
+            rep.nontrivial = case.structured;
+            return Ok(rep);
+        }
+    };
+    // ---- header fields and consumption
+    if rest.len() != bytes.len() - 9 || rest != &bytes[9..] {
+        fail!("C15/decoder:consumed:header", "frame_header consumed {} bytes instead of 9; input {shown}", bytes.len() - rest.len());
+    }
+    if header.payload_len != r.len || header.flags != r.flags || header.stream_id != r.sid || !frame_type_matches(&header.frame_type, r.typ) {
+        fail!("C15/decoder:fields:header", "frame_header decoded {header:?}, the header says length {} type {:#x} flags {:#x} stream {}; input {shown}", r.len, r.typ, r.flags, r.sid);
+    }
+    match parser::frame_body(rest, &header) {
+        Err(e) => {
+            judge_err("frame_body", error_kind!(e), &mut rep)?;
+        }
+        Ok((remaining, frame)) => {
+            if !r.complete {
+                fail!("C15/decoder:ok-on-truncated-payload", "frame_body returned {frame:?} although only {} of the {} declared payload bytes are present; input {shown}", rest.len(), r.len);
+            }
+            let want_rest = &bytes[9 + r.len as usize..];
+            if remaining.len() != want_rest.len() || remaining != want_rest {
+                fail!(format!("C15/decoder:consumed:{tn}"), "{tn} frame of declared length {}: the decoder consumed 9+{} bytes; input {shown}", r.len, rest.len() as i64 - remaining.len() as i64);
+            }
+            if !r.viol.is_empty() && !r.any {
+                if r.short_priority && steer(case.strict) {
+                    rep.excluded_known += 1;
+                    rep.class("known:headers_priority_too_short");
+                } else {
+                    fail!(format!("C15/decoder:accepted:{tn}"), "malformed {tn} frame accepted as {frame:?} (length {}, flags {:#x}, stream {}); RFC 9113 prescribes {:?}; input {shown}, max_frame_size {mfs}", r.len, r.flags, r.sid, r.viol.iter().map(|c| class_name(Some(*c))).collect::<Vec<_>>());
+                }
+            }
+            if let Some(want) = &r.decoded {
+                let got = match observed(&frame, header.flags, rest) {
+                    Ok(g) => g,
+                    Err(why) => fail!(format!("C15/decoder:fields:{tn}"), "{why}; input {shown}"),
+                };
+                let same = match (&got, want) {
+                    // a decoder may treat the RFC 9218 extension type as unknown
+                    (Dec::Unknown(t), Dec::PriorityUpdate { .. }) => *t == T_PRIORITY_UPDATE,
+                    (g, w) => g == w,
+                };
+                if !same {
+                    fail!(format!("C15/decoder:fields:{tn}"), "decoded {got:?}, the bytes say {want:?}; input {shown}");
+                }
+                if let Some(s) = frame_stream_id(&frame) {
+                    if s != r.sid {
+                        fail!(format!("C15/decoder:fields:{tn}"), "decoded stream id {s}, the header says {}; input {shown}", r.sid);
+                    }
+                }
+            }
+            rep.class("ok");
+            rep.class_if(!want_rest.is_empty(), "ok_with_trailing_bytes_left_untouched");
+            rep.class_if(bytes[5] & 0x80 != 0, "ok_reserved_bit_set");
+            rep.class_if(r.flags & F_PADDED != 0 && matches!(r.typ, T_DATA | T_HEADERS), "ok_padded");
+        }
+    }
+    rep.class(format!("type:{tn}"));
+    rep.class_if(r.len > 16000, "length_near_or_above_16384");
+    rep.nontrivial = case.structured && r.complete;
+    Ok(rep)
+}
+
+// ------------------------------------------------------------------ run
+
+pub fn run(args: &Args) -> i32 {
+    if args.shard.is_some() {
+        let st = super::c15_conn::child(args);
+        return engine::shard::child_finish(args, &st);
+    }
+    let mut ev = Evidence::new(args, "exploration");
+    ev.rule(
+        SUB_DECODER,
+        "inputs to parser::frame_header + parser::frame_body with max_frame_size 16384 or 2^24-1: (5/6) structured frames - a valid frame of every RFC 9113 type (plus RFC 9218 PRIORITY_UPDATE and unknown types) built by the harness's own encoder, 45% left pristine, the others with independent near-miss mutations (declared length off by small deltas or forced to 0/1/4/5/8/16384/16385/2^24-1, stream id 0 where forbidden and the reverse, reserved bit, arbitrary flags incl. PADDED/PRIORITY/ACK, Pad Length replaced, frame truncated, unrelated bytes after the frame) - and (1/6) arbitrary byte strings. Oracle: an independent decoder written from RFC 9113 4.1/4.2/6.1-6.10: no panic; Ok only for a complete frame that breaks no rule, consuming exactly 9 + declared length (the rest of the input untouched) with type, flags, stream id (reserved bit ignored) and every typed field (padding stripped, priority fields, SETTINGS list, PING data, GOAWAY fields, increment) equal to the reference; Err with one of the classes of the rules the frame breaks (FRAME_SIZE_ERROR for size rules, PROTOCOL_ERROR for stream-id and padding rules); where the RFC leaves a choice or the check belongs to a later layer (zero increment, SETTINGS values, self-dependency, PUSH_PROMISE, more than 64 SETTINGS entries, PRIORITY_UPDATE) both verdicts are admitted. Non-trivial: a structured, complete frame.",
+    );
+    ev.assume("a nom-kind (unclassified) decoder error is read as PROTOCOL_ERROR, which is how the only production caller (h2.rs error_nom_to_h2) reports it");
+    ev.assume("frame_header and frame_body are judged as one decoder: an error of either stage counts, in the order the production caller invokes them");
+    ev.floor(SUB_DECODER, "structured_frame", 0.6);
+    ev.floor(SUB_DECODER, "ok", 0.25);
+    ev.floor(SUB_DECODER, "err:FRAME_SIZE_ERROR", 0.08);
+    ev.floor(SUB_DECODER, "err:PROTOCOL_ERROR", 0.05);
+    ev.floor(SUB_DECODER, "err:incomplete_input", 0.01);
+    ev.floor(SUB_DECODER, "ok_padded", 0.01);
+    ev.floor(SUB_DECODER, "ok_with_trailing_bytes_left_untouched", 0.03);
+    for t in ["DATA", "HEADERS", "PRIORITY", "RST_STREAM", "SETTINGS", "PUSH_PROMISE", "PING", "GOAWAY", "WINDOW_UPDATE", "CONTINUATION", "UNKNOWN"] {
+        ev.floor(SUB_DECODER, &format!("type:{t}"), 0.03);
+    }
+    // a replay file names its sub-check: run only that one
+    let replay_sub: Option<String> = args.replay.as_ref().and_then(|p| std::fs::read_to_string(p).ok()).and_then(|t| serde_json::from_str::<serde_json::Value>(&t).ok()).and_then(|v| v.get("sub").and_then(|s| s.as_str()).map(|s| s.to_string()));
+    let wanted = |sub: &str| args.wants(sub) && replay_sub.as_deref().map(|r| r == sub).unwrap_or(true);
+    if wanted(SUB_DECODER) {
+        // the decoder logs every stream-id rejection through sozu's uninitialised logger (stdout)
+        engine::with_quiet_stdout(|| engine::run_pbt(&mut ev, args, SUB_DECODER, args.cases(200_000, 4_000_000), decoder_strategy, decoder_check));
+    }
+
+    super::c15_conn::describe(&mut ev);
+    if wanted(SUB_CONN) {
+        engine::shard::run_sharded(&mut ev, args, SUB_CONN, 16, Duration::from_secs(args.tier.pick(600, 3600)));
+    }
+    ev.finish()
 }
